@@ -26,7 +26,8 @@ Nil   == [k |-> "n"]
 Dec(s, m, e) == [k |-> "d", cls |-> "fin", s |-> s, m |-> m, e |-> e]
 
 Disp == {I64!FromInt(d) : d \in -130..130} \cup {P(31), P(32), P(62), I64!MaxInt, I64!MinInt, I64!Neg(P(32)), I64!FromInt(1000)}
-Exps == {I64!FromInt(n) : n \in 0..70} \cup {I64!FromInt(100), I64!FromInt(1000), I64!FromInt(65537), I64!FromInt(-1), I64!FromInt(-2)}
+Exps == {I64!FromInt(n) : n \in 0..70} \cup {I64!FromInt(100), I64!FromInt(1000), I64!FromInt(65537), I64!FromInt(-1), I64!FromInt(-2),
+         P(31), P(32), I64!Add(P(32), I64!One), I64!Add(P(32), I64!FromInt(3)), P(33), P(62), I64!MaxInt, I64!Sub(I64!MaxInt, I64!One)}
 
 \* doubles around the integer range (odd mantissa, exponent)
 M53 == I64!Sub(P(53), I64!One)                 \* 2^53 - 1
